@@ -359,7 +359,44 @@ func (r *Replica) ExecBlock(txs []pb.Transaction, ts int64) *BlockResult {
 	return r.ExecBlockAt(h, txs, ts)
 }
 
+// wireDecoded returns the transactions the way a node gets them: decoded from the bytes
+// that travelled through the API / p2p / consensus log (fresh objects, lazily filled caches
+// such as an address's string form empty). Transactions that cannot make the round trip
+// (deliberately malformed ones) are handed over as built.
+func wireDecoded(txs []pb.Transaction) []pb.Transaction {
+	if len(txs) == 0 {
+		return txs
+	}
+	var out []pb.Transaction
+	func() {
+		defer func() {
+			if recover() != nil {
+				out = nil
+			}
+		}()
+		data, err := (&pb.Transactions{Transactions: txs}).Marshal()
+		if err != nil {
+			return
+		}
+		dec := &pb.Transactions{}
+		if err := dec.Unmarshal(data); err != nil || len(dec.Transactions) != len(txs) {
+			return
+		}
+		for i, tx := range dec.Transactions {
+			if tx == nil || tx.GetHash().String() != txs[i].GetHash().String() {
+				return
+			}
+		}
+		out = dec.Transactions
+	}()
+	if out == nil {
+		return txs
+	}
+	return out
+}
+
 func (r *Replica) ExecBlockAt(h uint64, txs []pb.Transaction, ts int64) *BlockResult {
+	txs = wireDecoded(txs)
 	block := &pb.Block{
 		BlockHeader:  &pb.BlockHeader{Version: []byte("1.0.0"), Number: h, Timestamp: ts},
 		Transactions: &pb.Transactions{Transactions: txs},
